@@ -419,7 +419,7 @@ class Rule(object):
         self._validate_float_content(node, errs)
         if Rule.is_float(node.content):
             float_val = float(node.content)
-            if float_val < minmax[0] or float_val > minmax[1]:
+            if not (minmax[0] <= float_val <= minmax[1]):
                 msg = f'Node "{node.name}" content should be in range {minmax}'
                 if errs is None:
                     raise MetapypeRuleError(msg)
@@ -441,7 +441,7 @@ class Rule(object):
         self._validate_float_content(node, errs)
         if Rule.is_float(node.content):
             float_val = float(node.content)
-            if float_val < 0:
+            if not (float_val >= 0):
                 msg = f'Node "{node.name}" content should be non-negative'
                 if errs is None:
                     raise MetapypeRuleError(msg)
